@@ -348,6 +348,10 @@ func (c *Ctx) clientSource(o Origin, taintedKeys map[string]bool) string {
 			return "request parameter"
 		case strings.HasPrefix(o.Name, "(*net/url.URL).Query#"):
 			return "request query"
+		case strings.HasPrefix(o.Name, "(*net/http.Request).Referer#"):
+			return "request Referer header"
+		case strings.HasPrefix(o.Name, "(*net/http.Request).UserAgent#"), strings.HasPrefix(o.Name, "(*net/http.Request).Cookie#"):
+			return "request header"
 		case strings.HasPrefix(o.Name, fnBodyRead+"#"):
 			return "request body"
 		case strings.HasPrefix(o.Name, "(net/url.Values).Get#"), strings.HasPrefix(o.Name, "(net/http.Header).Get#"), strings.HasPrefix(o.Name, "(net/http.Header).Values#"):
